@@ -23,8 +23,8 @@ Definition edge_rep (g : sgraph) (idx : list nat) (e : list Z * nat) (y : nat) :
   exists tx, 1 <= snd e /\ nth_error idx (snd e - 1) = Some tx /\
     ((fst e = [] /\ y = tx) \/ (fst e <> [] /\ ~ In y idx /\ exp_node g y (fst e) tx)).
 
-Record rep (n0 : nat) (done : list d4token) (b : bstate) : Prop := {
-  rp_core : core_ok (bs_ls b);
+Record rep (P : Z -> Prop) (n0 : nat) (done : list d4token) (b : bstate) : Prop := {
+  rp_core : core_ok P (bs_ls b);
   rp_tri : ls_tri (bs_ls b) = [];
   rp_nodup : NoDup (bs_idx b);
   rp_decl : Forall2 (fun k x => sg_label (ls_g (bs_ls b)) x = Some (tid_of_kind k))
@@ -71,10 +71,10 @@ Proof.
   - now apply IH.
 Qed.
 
-Lemma idx_alive n0 done b x : rep n0 done b -> In x (bs_idx b) -> sg_alive (ls_g (bs_ls b)) x = true.
+Lemma idx_alive P n0 done b x : rep P n0 done b -> In x (bs_idx b) -> sg_alive (ls_g (bs_ls b)) x = true.
 Proof.
   intros HR Hin. apply In_nth_error in Hin. destruct Hin as [i Hi].
-  destruct (Forall2_nth_error _ _ _ _ _ (rp_decl _ _ _ HR) Hi) as [k [_ Hk]].
+  destruct (Forall2_nth_error _ _ _ _ _ (rp_decl _ _ _ _ HR) Hi) as [k [_ Hk]].
   unfold sg_alive. now rewrite Hk.
 Qed.
 
@@ -111,21 +111,22 @@ Qed.
 
 Section Parse.
 Variable rc : bool.
+Context {P : Z -> Prop}.
 
 (* ---------- declarations ---------- *)
-Lemma rep_decl n0 done b t k : rep n0 done b -> d4_kind t = [k] -> d4_token_max t = 0 ->
+Lemma rep_decl n0 done b t k : rep P n0 done b -> d4_kind t = [k] -> d4_token_max t = 0 ->
   (forall i, d4_edge_of i t = []) ->
-  rep n0 (done ++ [t]) (decl rc (tid_of_kind k) b).
+  rep P n0 (done ++ [t]) (decl rc (tid_of_kind k) b).
 Proof.
   intros HR Hk Hmax Hne. unfold decl.
   destruct (add_node rc (tid_of_kind k) (ls_g (bs_ls b))) as [x g'] eqn:Ha.
-  pose proof HR as [[HI Hl Hp] Htri Hnd Hdecl Hedges Hrange Htot Hfirst Hempty].
+  pose proof HR as [[HI Hl Hp Hinj] Htri Hnd Hdecl Hedges Hrange Htot Hfirst Hempty].
   pose proof (add_node_ext rc _ _ _ _ [] HI Ha) as He.
   pose proof (add_node_fresh rc _ _ _ _ HI Ha) as Hfresh.
   pose proof (add_node_label_new rc _ _ _ _ HI Ha) as Hlx.
   assert (Hxd : sg_alive (ls_g (bs_ls b)) x = false) by (unfold sg_alive; now rewrite Hfresh).
   assert (Hxn : ~ In x (bs_idx b)).
-  { intros Hin. rewrite (idx_alive _ _ _ _ HR Hin) in Hxd. discriminate. }
+  { intros Hin. rewrite (idx_alive _ _ _ _ _ HR Hin) in Hxd. discriminate. }
   constructor; unfold with_g; cbn [bs_ls bs_idx bs_occ bs_total ls_g ls_lits ls_tri].
   - constructor; cbn [ls_g ls_lits].
     + apply (add_node_Inv rc _ _ _ _ HI Ha).
@@ -133,6 +134,9 @@ Proof.
     + intros z l Hz. destruct (Nat.eq_dec z x) as [->|Hzx].
       * rewrite Hlx in Hz. destruct k; discriminate.
       * rewrite (add_node_label_old rc _ _ _ _ Ha z Hzx) in Hz. now apply (Hp z).
+    + intros z l Hz. destruct (Nat.eq_dec z x) as [->|Hzx].
+      * rewrite Hlx in Hz. destruct k; discriminate.
+      * rewrite (add_node_label_old rc _ _ _ _ Ha z Hzx) in Hz. now apply (Hinj z).
   - exact Htri.
   - apply NoDup_app_snoc; assumption.
   - rewrite d4_decls_app. unfold d4_decls at 2. cbn [flat_map]. rewrite Hk, app_nil_r.
@@ -142,7 +146,7 @@ Proof.
     rewrite Hne, !app_nil_r.
     destruct (Nat.lt_ge_cases i (length (bs_idx b))) as [Hlt|Hge].
     + rewrite nth_error_app1 in Hi by exact Hlt.
-      assert (Hza : sg_alive (ls_g (bs_ls b)) z = true) by (apply (idx_alive _ _ _ _ HR); now apply nth_error_In in Hi).
+      assert (Hza : sg_alive (ls_g (bs_ls b)) z = true) by (apply (idx_alive _ _ _ _ _ HR); now apply nth_error_In in Hi).
       rewrite (ex_out _ _ _ He z Hza) by (intros []).
       eapply Forall2_impl; [|exact (Hedges i z Hi)]. intros e y Hey.
       apply (edge_rep_ext _ _ (bs_idx b) _ [] e y He); [intros ? []| | |exact Hey].
@@ -163,9 +167,9 @@ Proof.
 Qed.
 
 (* ---------- the literal leaves of an edge ---------- *)
-Lemma get_lits_spec : forall ls s lns s', core_ok s -> Forall (fun l => l <> 0%Z) ls ->
+Lemma get_lits_spec : forall ls s lns s', core_ok P s -> Forall P ls ->
   get_lits rc ls s = (lns, s') ->
-  core_ok s' /\ ext (ls_g s) (ls_g s') [] /\ lit_nodes (ls_g s') ls lns /\ ls_tri s' = ls_tri s.
+  core_ok P s' /\ ext (ls_g s) (ls_g s') [] /\ lit_nodes (ls_g s') ls lns /\ ls_tri s' = ls_tri s.
 Proof.
   induction ls as [|l r IH]; intros s lns s' Hc Hnz H; cbn [get_lits] in H.
   - injection H as <- <-. split; [exact Hc|]. split; [apply ext_refl|]. split; [constructor|reflexivity].
@@ -178,8 +182,8 @@ Proof.
     constructor; [exact (ext_label_some _ _ _ _ _ He2 Hlx)|exact Hn2].
 Qed.
 
-Lemma add_edges_to_spec an : forall bs s s', core_ok s -> add_edges_to an bs s = Some s' ->
-  core_ok s' /\ ext (ls_g s) (ls_g s') [an] /\ sg_out (ls_g s') an = rev bs ++ sg_out (ls_g s) an /\
+Lemma add_edges_to_spec an : forall bs s s', core_ok P s -> add_edges_to an bs s = Some s' ->
+  core_ok P s' /\ ext (ls_g s) (ls_g s') [an] /\ sg_out (ls_g s') an = rev bs ++ sg_out (ls_g s) an /\
   ls_tri s' = ls_tri s.
 Proof.
   induction bs as [|b r IH]; intros s s' Hc H; cbn [add_edges_to] in H.
@@ -195,9 +199,9 @@ Lemma remove1_head c l : remove1 c (c :: l) = l.
 Proof. cbn [remove1]. now rewrite Nat.eqb_refl. Qed.
 
 (* resolve_weighted_edge after the plain edge a -> c was added *)
-Lemma resolve_spec a c fs s s1 s2 : core_ok s -> Forall (fun l => l <> 0%Z) fs ->
+Lemma resolve_spec a c fs s s1 s2 : core_ok P s -> Forall P fs ->
   ls_add_edge a c s = Some s1 -> resolve_weighted_edge rc a c fs s1 = Some s2 ->
-  core_ok s2 /\ ls_tri s2 = ls_tri s /\ ext (ls_g s) (ls_g s2) [a] /\
+  core_ok P s2 /\ ls_tri s2 = ls_tri s /\ ext (ls_g s) (ls_g s2) [a] /\
   exists y, sg_out (ls_g s2) a = y :: sg_out (ls_g s) a /\
     ((fs = [] /\ y = c) \/ (fs <> [] /\ sg_alive (ls_g s) y = false /\ exp_node (ls_g s2) y fs c)).
 Proof.
@@ -223,7 +227,7 @@ Proof.
     set (s2' := with_g s1' (remove_edge a c g2)) in H.
     destruct (ls_add_edge a an s2') as [s3|] eqn:E3; [|discriminate].
     destruct (add_edges_to an lns s3) as [s4|] eqn:E4; [|discriminate].
-    destruct Hc1' as [HI1 Hl1 Hp1].
+    destruct Hc1' as [HI1 Hl1 Hp1 Hj1].
     pose proof (add_node_fresh rc _ _ _ _ HI1 Ha) as Hfresh.
     pose proof (add_node_label_new rc _ _ _ _ HI1 Ha) as Hlan.
     pose proof (add_node_no_out rc _ _ _ _ HI1 Ha) as Hoan.
@@ -233,12 +237,14 @@ Proof.
     assert (Hand : sg_alive (ls_g s) an = false).
     { destruct (sg_alive (ls_g s) an) eqn:E; [|reflexivity].
       pose proof (ext_alive _ _ _ _ He11 (ext_alive _ _ _ _ He01 E)) as E'. unfold sg_alive in E'. now rewrite Hfresh in E'. }
-    assert (Hc2' : core_ok s2').
+    assert (Hc2' : core_ok P s2').
     { constructor; cbn [s2' with_g ls_g ls_lits ls_tri].
       - apply remove_edge_Inv, (add_node_Inv rc _ _ _ _ HI1 Ha).
       - intros l z Hz. rewrite remove_edge_label. apply (ext_label_some _ _ _ _ _ He12). now apply Hl1.
       - intros z l Hz. rewrite remove_edge_label in Hz. destruct (Nat.eq_dec z an) as [->|Hza]; [congruence|].
-        rewrite (add_node_label_old rc _ _ _ _ Ha z Hza) in Hz. now apply (Hp1 z). }
+        rewrite (add_node_label_old rc _ _ _ _ Ha z Hza) in Hz. now apply (Hp1 z).
+      - intros z l Hz. rewrite remove_edge_label in Hz. destruct (Nat.eq_dec z an) as [->|Hza]; [congruence|].
+        rewrite (add_node_label_old rc _ _ _ _ Ha z Hza) in Hz. now apply (Hj1 z). }
     assert (He22 : ext (ls_g s1') (ls_g s2') [a]).
     { apply (ext_trans _ g2); [apply (ext_weaken _ _ []); [intros ? []|exact He12]|]. apply remove_edge_ext. now left. }
     assert (Ho2a : sg_out (ls_g s2') a = sg_out (ls_g s) a).
@@ -281,8 +287,8 @@ Proof.
 Qed.
 
 (* ---------- an edge line ---------- *)
-Lemma rep_edge n0 done b from to fs b' : rep n0 done b -> Forall (fun l => l <> 0%Z) fs ->
-  d4_line rc b (DEdge from to fs) = Some b' -> rep n0 (done ++ [DEdge from to fs]) b'.
+Lemma rep_edge n0 done b from to fs b' : rep P n0 done b -> Forall P fs ->
+  d4_line rc b (DEdge from to fs) = Some b' -> rep P n0 (done ++ [DEdge from to fs]) b'.
 Proof.
   intros HR Hnz H. cbn [d4_line] in H.
   destruct (idx_get (bs_idx b) from) as [a|] eqn:Ea; [|discriminate].
@@ -307,14 +313,14 @@ Proof.
   - rewrite d4_decls_app. unfold d4_decls at 2. cbn [flat_map d4_kind]. rewrite app_nil_r.
     eapply Forall2_impl; [|exact Hdecl]. intros k z Hz. exact (ext_label_some _ _ _ _ _ He Hz).
   - intros i x Hi. rewrite d4_edges_from_app. unfold d4_edges_from at 2. cbn [flat_map d4_edge_of]. rewrite app_nil_r.
-    assert (Hxa : sg_alive (ls_g (bs_ls b)) x = true) by (apply (idx_alive _ _ _ _ HR); now apply nth_error_In in Hi).
+    assert (Hxa : sg_alive (ls_g (bs_ls b)) x = true) by (apply (idx_alive _ _ _ _ _ HR); now apply nth_error_In in Hi).
     destruct (Nat.eq_dec i p) as [->|Hip].
     + assert (x = a) as -> by congruence.
       rewrite Hfrom, Z.eqb_refl, rev_app_distr. cbn [rev app]. rewrite Hoa.
       constructor; [|eapply Forall2_impl; [exact Htrans|exact (Hedges p a Hi)]].
       exists c. cbn [fst snd]. split; [exact Ht1|]. split; [exact Htc|].
       destruct Hy as [[-> ->]|[Hfs [Hyd Hexp]]]; [left; now split|]. right. split; [exact Hfs|]. split; [|exact Hexp].
-      intros Hin. rewrite (idx_alive _ _ _ _ HR Hin) in Hyd. discriminate.
+      intros Hin. rewrite (idx_alive _ _ _ _ _ HR Hin) in Hyd. discriminate.
     + assert (Hne : (from =? Z.of_nat (S i))%Z = false) by (apply Z.eqb_neq; lia).
       rewrite Hne, app_nil_r.
       assert (Hxne : x <> a).
@@ -332,9 +338,9 @@ Proof.
 Qed.
 
 (* ---------- the whole file ---------- *)
-Lemma rep_line n0 done b t b' : rep n0 done b ->
-  (forall from to fs, t = DEdge from to fs -> Forall (fun l => l <> 0%Z) fs) ->
-  d4_line rc b t = Some b' -> rep n0 (done ++ [t]) b'.
+Lemma rep_line n0 done b t b' : rep P n0 done b ->
+  (forall from to fs, t = DEdge from to fs -> Forall P fs) ->
+  d4_line rc b t = Some b' -> rep P n0 (done ++ [t]) b'.
 Proof.
   intros HR Hnz H. destruct t as [from to fs| | | |].
   - apply (rep_edge n0 done b from to fs b' HR (Hnz _ _ _ eq_refl) H).
@@ -344,9 +350,9 @@ Proof.
   - cbn [d4_line] in H. injection H as <-. now apply (rep_decl n0 done b DFalse KFalse).
 Qed.
 
-Lemma rep_lines n0 : forall toks done b b', rep n0 done b ->
-  (forall from to fs, In (DEdge from to fs) toks -> Forall (fun l => l <> 0%Z) fs) ->
-  d4_lines rc b toks = Some b' -> rep n0 (done ++ toks) b'.
+Lemma rep_lines n0 : forall toks done b b', rep P n0 done b ->
+  (forall from to fs, In (DEdge from to fs) toks -> Forall P fs) ->
+  d4_lines rc b toks = Some b' -> rep P n0 (done ++ toks) b'.
 Proof.
   induction toks as [|t r IH]; intros done b b' HR Hnz H; cbn [d4_lines] in H.
   - injection H as <-. now rewrite app_nil_r.
@@ -357,11 +363,11 @@ Proof.
     intros from to fs ->. apply (Hnz from to fs). now left.
 Qed.
 
-Lemma rep_init n0 : rep n0 [] (mkBS (mkLS sg_empty [] []) [] [] n0).
+Lemma rep_init n0 : rep P n0 [] (mkBS (mkLS sg_empty [] []) [] [] n0).
 Proof.
   constructor; cbn [bs_ls bs_idx bs_total ls_g ls_lits ls_tri].
-  - constructor; cbn [ls_g ls_lits]; [apply Inv_empty|discriminate|].
-    intros z l Hz. unfold sg_label in Hz. cbn in Hz. destruct z; discriminate.
+  - constructor; cbn [ls_g ls_lits]; [apply Inv_empty|discriminate| |];
+      intros z l Hz; unfold sg_label in Hz; cbn in Hz; destruct z; discriminate.
   - reflexivity.
   - constructor.
   - constructor.
